@@ -329,6 +329,10 @@ func zzBlockedSpec(g *Graph, t *Task) bool {
 
 func zzCmdStore() *Graph {
 	g := zzC14Store("2;Results=0;RDeps=0;Tombstones=1;constkeys=Tasks,Meta,Deps")
+	// the pruned id is pinned so that a replay can force the random draw onto it (zzPinRand)
+	for k := range g.Tombstones {
+		zzAssume(k == "AAAAAA")
+	}
 	return g
 }
 
